@@ -140,6 +140,16 @@ func genC14(tier string) []*Scenario {
 		for _, b := range []CIn{cGet, cSet, cDelExp, cRange, cClear} {
 			add(&CacheScen{Rel: RelDD, NKeys: 2, Init: []int{IAbsent, ILive}, Table: TGrowArmed, Callback: true, Threads: [][]CIn{{con(cSet, 0)}, {con(b, 1)}}})
 		}
+		// the very first calls on a fresh cache come from two goroutines (whatever is built lazily on first use)
+		firsts := []CIn{cSet, cGet, cGoS, cGoC, cDelete, cDelExp, cRange, cClear, cCount, {Op: CItems}}
+		for i, a := range firsts {
+			for j, b := range firsts {
+				if j < i {
+					continue
+				}
+				add(&CacheScen{Rel: RelSD, NKeys: 2, Init: []int{IAbsent, IAbsent}, Table: TPlain, Callback: false, Threads: [][]CIn{{con(a, 0)}, {con(b, 1)}}})
+			}
+		}
 		for _, c := range cs {
 			c.Prop, c.Classes = "C14", ORace
 			sc := c.Scenario()
